@@ -33,17 +33,7 @@ struct PairHash { size_t operator()(const std::pair<const void*, const void*>& p
 inline std::unordered_set<std::pair<const void*, const void*>, PairHash>& candidates() { static std::unordered_set<std::pair<const void*, const void*>, PairHash> s; return s; }
 inline bool& collecting() { static bool b = false; return b; }
 
-// independent closest-point distance (long double, Ericson's regions re-derived with explicit clamping of barycentric coordinates)
-inline long double dist2_point_triangle(const vec3& P, const vec3& A, const vec3& B, const vec3& C) {
-    typedef long double L; L p[3] = {P.dx(), P.dy(), P.dz()}, a[3] = {A.dx(), A.dy(), A.dz()}, b[3] = {B.dx(), B.dy(), B.dz()}, c[3] = {C.dx(), C.dy(), C.dz()};
-    auto seg = [&](const L* u, const L* v) { L uv[3], up[3]; L t = 0, l = 0; for (int k = 0; k < 3; k++) { uv[k] = v[k] - u[k]; up[k] = p[k] - u[k]; t += uv[k] * up[k]; l += uv[k] * uv[k]; } t = l > 0 ? std::max((L)0, std::min((L)1, t / l)) : 0; L d = 0; for (int k = 0; k < 3; k++) { L q = u[k] + t * uv[k] - p[k]; d += q * q; } return d; };
-    L best = std::min(seg(a, b), std::min(seg(b, c), seg(c, a)));
-    L ab[3], ac[3], ap[3], n[3]; for (int k = 0; k < 3; k++) { ab[k] = b[k] - a[k]; ac[k] = c[k] - a[k]; ap[k] = p[k] - a[k]; }
-    n[0] = ab[1] * ac[2] - ab[2] * ac[1]; n[1] = ab[2] * ac[0] - ab[0] * ac[2]; n[2] = ab[0] * ac[1] - ab[1] * ac[0]; L nn = n[0] * n[0] + n[1] * n[1] + n[2] * n[2];
-    if (nn > 0) { L d00 = 0, d01 = 0, d11 = 0, d20 = 0, d21 = 0; for (int k = 0; k < 3; k++) { d00 += ab[k] * ab[k]; d01 += ab[k] * ac[k]; d11 += ac[k] * ac[k]; d20 += ap[k] * ab[k]; d21 += ap[k] * ac[k]; } L den = d00 * d11 - d01 * d01; L v = (d11 * d20 - d01 * d21) / den, w = (d00 * d21 - d01 * d20) / den;
-        if (v >= 0 && w >= 0 && v + w <= 1) { L h = ap[0] * n[0] + ap[1] * n[1] + ap[2] * n[2]; best = std::min(best, h * h / nn); } }
-    return best;
-}
+using sc::dist2_point_triangle;
 
 struct ForceSnap { std::vector<std::vector<vec3>> f; };
 inline ForceSnap forces_of(const std::vector<cell_ptr>& cells) { ForceSnap s; for (auto& c : cells) { s.f.emplace_back(); for (const node& n : c->node_lst_) s.f.back().push_back(n.is_used_ ? n.force_ : vec3(0, 0, 0)); } return s; }
